@@ -603,7 +603,7 @@ func genSeq(r *rng.R) seqIn {
 func Run(args []string) int {
 	fs := flag.NewFlagSet("c13", flag.ContinueOnError)
 	seed := fs.Uint64("seed", 1, "seed")
-	mode := fs.String("mode", "resolve", "resolve|pipe|plus|e2e|seq|faults|pipeE|replay")
+	mode := fs.String("mode", "resolve", "resolve|pipe|plus|e2e|seq|faults|pipeE|hist|replay")
 	n := fs.Int("n", 100, "number of cases")
 	maxOps := fs.Int("maxops", 8, "maximum sequence length (plus)")
 	if err := fs.Parse(args); err != nil {
@@ -665,6 +665,11 @@ func Run(args []string) int {
 				if json.Unmarshal(raw.In, &in) == nil {
 					emit(line{"faults", id, in, runFaults(in)})
 				}
+			case "hist":
+				var in histIn
+				if json.Unmarshal(raw.In, &in) == nil {
+					emit(line{"hist", id, in, runHist(in)})
+				}
 			case "pipeE":
 				var in struct {
 					Objs string `json:"objs"`
@@ -701,6 +706,9 @@ func Run(args []string) int {
 		case "faults":
 			in := genFaults(r, *maxOps)
 			emit(line{"faults", i, in, runFaults(in)})
+		case "hist":
+			in := genHist(r, *maxOps)
+			emit(line{"hist", i, in, runHist(in)})
 		case "pipeE":
 			pin, pout := runPipeE(genPipeE(r))
 			emit(line{"pipeE", i, pin, pout})
